@@ -132,7 +132,7 @@ PROPS = {
                                      ('hist', ['-n', 30, '-scans', 8, '-focus', 'fleet'])]),
                 aspects=['hist:writes', 'hist:state'], monitors=['C02'],
                 theorems=['Esc.P.C02_quiet_scan', 'Esc.P.C02_history_quiet', 'Esc.P.C02_release', 'Esc.P.C02_release_scan', 'Esc.P.C02_armed',
-                          'Esc.P.increaseSize_none', 'Esc.P.runOnce_quiet', 'Esc.P.C02_increase_is_last'],
+                          'Esc.P.increaseSize_none', 'Esc.P.runOnce_quiet', 'Esc.P.C02_increase_is_last', 'Esc.P.gen_lockLocked_eq', 'Esc.P.gen_lockUnlock_eq', 'Esc.P.gen_lockLock_eq', 'Esc.P.C02_source_lock', 'Esc.P.C02_source_lock_then_locked', 'Esc.P.gen_lock_translation_complete'],
                 technique='Lean 4 theorem (lock invariant carried through RunOnce and along histories by induction over the event list, explicit clock) + differential correspondence on all calls and on the lock state + monitor over observed histories',
                 level_text='C02_quiet_scan / C02_history_quiet: while now - lockTime < cool-down a group scan issues no call at all and leaves the lock untouched, for every view (below minimum, force-tainted, expired nodes) and, within one lifetime, '
                            'along every history of scans; C02_armed + increaseSize_none: the lock is armed only on an accepted SetDesiredCapacity/AttachInstances (or in dry mode); C02_release(_scan): once the period has elapsed the lock is not held. '
